@@ -166,6 +166,9 @@ def case_fans(psutil, case):
     got = outcome(psutil.sensors_fans)
     if got[0] != "ok":
         return [("fans-raised:%s:input-%s" % (got[1], st_in), "%r (case %r)" % (got, case))]
+    if type(got[1]) is not dict:
+        return [("fans:not-a-plain-dict", "sensors_fans() returned a %s: %r (asking it for an absent chip must raise KeyError, not grow the answer)"
+                 % (type(got[1]).__name__, got[1]))]
     exp = []
     if st_in == "ok":
         exp.append(["cpu fan" if st_label == "ok" else ("N/A" if st_label == "garbage" else ""), 2100])
@@ -474,6 +477,10 @@ def build_cases(thorough):
         if not thorough and (hash((nw, pw, fl, tte, cap, stt, ac).__repr__()) % 1 != 0):
             continue
         cases.append(("battery", nw[0], nw[1], pw[0], pw[1], fl[0], fl[1], tte, cap, stt, ac, ["BAT0"]))
+    # a battery holding more than its last learnt "full" figure (right after calibration, or a worn cell): now/full*100 is above 100
+    for nf, ff in (("energy_now", "energy_full"), ("charge_now", "charge_full")):
+        cases.append(("battery", nf, 63180, "power_now", 15000, ff, 60000, None, None, "Discharging", None, ["BAT0"]))
+        cases.append(("battery", nf, 66000, None, 0, ff, 60000, None, 88, "Full", ("AC", 1), ["BAT0"]))
     for names in (["BAT1", "BAT0"], ["hid-battery-1", "BAT0"], ["CMB0", "macsmc-battery"], [], "nodir", ["AC"]):
         cases.append(("battery", "energy_now", 30000, "power_now", 15000, "energy_full", 60000, None, 50, "Discharging", None, names))
     for ncpu in (1, 2, 4, 16):
